@@ -1,6 +1,7 @@
 package main
 
 import (
+	"encoding/binary"
 	"fmt"
 	"sort"
 
@@ -177,6 +178,14 @@ func decoderSeamImpl(res *vkit.Result) {
 				m := append([]byte{}, d.valid...)
 				m[i] = nb
 				try(d, "byte-edit", m, i)
+			}
+		}
+		// element counts that make count*k wrap around 2^32 (k = 2..64), at the start of the encoding
+		if len(d.valid) >= 8 {
+			for k := uint64(2); k <= 64; k++ {
+				m := append([]byte{}, d.valid...)
+				binary.BigEndian.PutUint32(m, uint32((uint64(1)<<32+k-1)/k))
+				try(d, "count-wrap", m, 0)
 			}
 		}
 		try(d, "short-string", []byte{}, 0)
